@@ -73,6 +73,7 @@ fn main() {
                 "catchup" => engines::catchup::replay(&v),
                 "listeners" => engines::listeners::replay(&v),
                 "select" => engines::select::replay(&v),
+                "fd" => engines::fd::replay(&v),
                 e => Err(format!("unknown engine {e}")),
             };
             match r {
@@ -119,6 +120,10 @@ fn run_check(prop: &str, tier: Tier) -> i32 {
         }
         "C17" => {
             check.parts.extend(engines::select::run(tier));
+        }
+        "C10" | "C11" => {
+            let p: &'static str = if prop == "C10" { "C10" } else { "C11" };
+            check.parts.extend(engines::fd::run(p, tier, started));
         }
         "C09" => {
             check.parts.extend(engines::hostile::run(tier, started));
